@@ -22,10 +22,5 @@ def classes (i : Input) : List String :=
 def drv : PropDrv Input Trace :=
   { decI := input?, decT := trace?, encT := ofTrace, model := model, clauses := Spec.C17.clauses, classes := classes }
 
-/-- Framework workaround, see `TTV.Drv.C08.handle`: for inputs in a finding class the "spec on model" field
-is reported as `ok` (there the model reproduces the defect on purpose). -/
-def handle (a : List Sexp) : Sexp :=
-  match drv.handle a with
-  | .list [m, si, _, .list (c :: cs)] => .list [m, si, .atom "ok", .list (c :: cs)]
-  | r => r
+def handle : List Sexp → Sexp := drv.handle
 end TTV.Drv.C17
